@@ -768,8 +768,94 @@ func runC20(c *Ctx) {
 			kv, _ := constant.Int64Val(k.Value)
 			verdict[kv] = returnVerdict(b.Succs[0])
 		}
+		// table form: `v, known := table[state]` on a package-level map literal that only init fills; the verdict for a
+		// state is its constant entry, and a state without an entry takes the !known edge
+		mapDefault := ""
+		for _, b := range f.Blocks {
+			for _, in := range b.Instrs {
+				lk, ok := in.(*ssa.Lookup)
+				if !ok || !lk.CommaOk || lk.Index != ssa.Value(f.Params[0]) {
+					continue
+				}
+				ld, ok := lk.X.(*ssa.UnOp)
+				if !ok {
+					continue
+				}
+				g, ok := ld.X.(*ssa.Global)
+				if !ok {
+					continue
+				}
+				// entries: MapUpdates on the map stored into the global by the package initialiser; no other writer
+				otherWriter := false
+				for _, pf := range c.P.RepoFunctions() {
+					if pf.Pkg != f.Pkg {
+						continue
+					}
+					for _, pb := range pf.Blocks {
+						for _, pin := range pb.Instrs {
+							switch x := pin.(type) {
+							case *ssa.Store:
+								if x.Addr == ssa.Value(g) {
+									if pf.Name() != "init" {
+										otherWriter = true
+									} else if mm, ok := x.Val.(*ssa.MakeMap); ok {
+										for _, r := range nonDebugRefs(mm) {
+											if mu, ok := r.(*ssa.MapUpdate); ok {
+												kk, ok1 := mu.Key.(*ssa.Const)
+												vv, ok2 := mu.Value.(*ssa.Const)
+												if ok1 && ok2 && kk.Value != nil && vv.Value != nil && vv.Value.Kind() == constant.Bool {
+													kv, _ := constant.Int64Val(kk.Value)
+													verdict[kv] = fmt.Sprint(constant.BoolVal(vv.Value))
+												}
+											}
+										}
+									}
+								}
+							case *ssa.MapUpdate:
+								if l2, ok := x.Map.(*ssa.UnOp); ok && l2.X == ssa.Value(g) {
+									otherWriter = true
+								}
+							}
+						}
+					}
+				}
+				if otherWriter {
+					verdict = map[int64]string{} // the table can change at run time: nothing is known about it
+				}
+				// the !known edge returns an error
+				for _, r := range nonDebugRefs(lk) {
+					if ex, ok := r.(*ssa.Extract); ok && ex.Index == 1 {
+						errRet := func(b *ssa.BasicBlock) bool {
+							for i := 0; i < 3 && b != nil; i++ {
+								if ret, ok := b.Instrs[len(b.Instrs)-1].(*ssa.Return); ok && len(ret.Results) == 2 {
+									k, isK := ret.Results[1].(*ssa.Const)
+									return !isK || !k.IsNil()
+								}
+								if len(b.Succs) != 1 {
+									return false
+								}
+								b = b.Succs[0]
+							}
+							return false
+						}
+						for _, u := range nonDebugRefs(ex) {
+							if iff, ok := u.(*ssa.If); ok && errRet(iff.Block().Succs[1]) {
+								mapDefault = "error"
+							}
+							if not, ok := u.(*ssa.UnOp); ok && not.Op == token.NOT {
+								for _, u2 := range nonDebugRefs(not) {
+									if iff, ok := u2.(*ssa.If); ok && errRet(iff.Block().Succs[0]) {
+										mapDefault = "error"
+									}
+								}
+							}
+						}
+					}
+				}
+			}
+		}
 		// default: the block reached when all comparisons fail
-		def := ""
+		def := mapDefault
 		for _, b := range f.Blocks {
 			if ret, ok := b.Instrs[len(b.Instrs)-1].(*ssa.Return); ok {
 				if _, isCall := ret.Results[1].(*ssa.Call); isCall {
